@@ -1,5 +1,9 @@
 // calls_guestlib.cpp — a real shared library for rlbox_dylib_sandbox (built twice, -DLIB=0 and -DLIB=1: two
 // libraries exporting the same names).  The bodies live in the driver executable (linked with -rdynamic).
+// Each library identifies itself through an EXPORTED helper (g0) / an exported global (g1) of its own, as real libraries
+// do: were the libraries loaded into one symbol scope, the second one's references would bind to the first one's.
 extern "C" long calls_guest_body(int lib, int fnid, long idx, long v);
-extern "C" long g0(long idx, long v) { return calls_guest_body(LIB, 0, idx, v); }
-extern "C" void g1(long idx, long v) { calls_guest_body(LIB, 1, idx, v); }
+extern "C" { int calls_lib_tag = LIB; }
+extern "C" int calls_lib_id() { return LIB; }
+extern "C" long g0(long idx, long v) { return calls_guest_body(calls_lib_id(), 0, idx, v); }
+extern "C" void g1(long idx, long v) { calls_guest_body(calls_lib_tag, 1, idx, v); }
